@@ -72,10 +72,10 @@ def composed_model(dadi, asfunc):
     return model
 
 
-def memo_extrap(dadi, model, args, ns, pts, rec, site, tags):
+def memo_extrap(dadi, model, args, ns, pts, rec, site, tags, cache=None):
     """Evaluate the model once per grid, then push the same results through both extrapolation modes."""
     from dadi import Numerics
-    cache = {}
+    cache = {} if cache is None else cache
 
     def memo(a, n_, p):
         if p not in cache:
@@ -120,6 +120,21 @@ def run_neutral(spec, rec, dadi):
         else:
             epochs = draw_history(rng)
             model, args = composed_model(dadi, asfunc), epochs
+        if spec["b"] == 0 and ci < 2 and not spec.get("fixed_case"):
+            # sizes that shrink 100-fold inside one call with the size passed as a function of time (the library's own growth
+            # models): the step must follow the shrinking population
+            if ci == 0:
+                which, nuB, nuF, T = "bottlegrowth", 10.0, 0.1, 0.3
+                K = 2000
+                ts = (np.arange(K) + 0.5) / K * T
+                epochs = [(float(nuB * np.exp(np.log(nuF / nuB) * t / T)), T / K) for t in ts]
+                model, args = Demographics1D.bottlegrowth_1d, (nuB, nuF, T)
+            else:
+                which, nu, T = "growth", 0.02, 0.15
+                K = 2000
+                ts = (np.arange(K) + 0.5) / K * T
+                epochs = [(float(np.exp(np.log(nu) * t / T)), T / K) for t in ts]
+                model, args = Demographics1D.growth, (nu, T)
         if spec.get("fixed_case"):
             fc = spec["fixed_case"]
             which, n, asfunc = "three_epoch", int(fc["n"]), False
@@ -143,7 +158,8 @@ def run_neutral(spec, rec, dadi):
         try:
             for tf in (1e-3, 1e-4):
                 Integration.timescale_factor = tf
-                res = memo_extrap(dadi, model, args, (n,), [G, G + 10, G + 20], rec, site, tags)
+                shared = {}
+                res = memo_extrap(dadi, model, args, (n,), [G, G + 10, G + 20], rec, site, tags, cache=shared)
                 for log, fs in res.items():
                     if fs is None:
                         continue
